@@ -78,7 +78,10 @@ CHECKS = {
         "Every string of length <=5 over a 12-symbol alphabet, every reserved word with variants, a witness and near-misses per "
         "reserved pattern and exotic unicode strings are passed to the real Language.filter_id, crossed with 6 id types x c/cpp/py "
         "x 5 stropping configurations; each result must be a valid unreserved identifier or an exception, identical for cold/warm "
-        "cache, a fresh object and two fresh processes with other hash seeds, and already-valid inputs must come back unchanged.",
+        "cache, a fresh object and two fresh processes with other hash seeds (plus an ordinary vs a python -O process), and already-valid "
+        "inputs must come back unchanged. Histories: [refused call ; next call] on one language object for every refusing configuration "
+        "(incl. affixes that themselves need encoding), and ordered pairs of language configurations created in one process, each "
+        "compared with the same call on a fresh object / in a fresh process.",
         "Oracle derived from properties.yaml parsed independently (+ keyword.kwlist / builtins); trusted base PyYAML, re, "
         "str.isidentifier; length bound 5.",
         "DESIGN.md section 3, C09",
@@ -90,7 +93,9 @@ CHECKS = {
         "stropping fold per language family) is written as real DSDL and handed to the real build_namespace_tree for 4 languages x "
         "extensions x stems x 5 output spellings x every order of the type list and forced set iteration orders; the public model "
         "API is compared with an independently computed prefix closure and path formula; for sets of <=2 types nnvg runs in a "
-        "snapshotted sandbox (files created == map, nothing outside the output directory, cross-root includes hit real files).",
+        "snapshotted sandbox (files created == map, nothing outside the output directory, cross-root includes hit real files). A "
+        "far-end family (wide / many types / many versions / chains / grids at 31..513 around every power of two, up to 514 "
+        "namespaces and the longest legal full name) runs through the same model and disk oracles.",
         "PyDSDL 1.25 and the language object's stropping of a single token (C09's subject) are trusted; one root, 12 types.",
         "DESIGN.md section 3, C11",
     ),
@@ -99,7 +104,8 @@ CHECKS = {
         "bounded-exhaustive enumeration of primitive calls in compiled drivers (ASan/UBSan) vs bit-at-a-time reference",
         "A driver compiled against the support header generated from the working tree (C any/little/big x asserts, C++ "
         "bitspan for c++14/17, ASan+UBSan, exactly-sized heap buffers) enumerates every (offset, length, buffer size, "
-        "pattern, value) within the stated bounds for copy/get/set primitives and compares with a naive bit loop; float16 "
+        "pattern, value) within the stated bounds for copy/get/set primitives (incl. overlapping byte-aligned copies, where the "
+        "contract promises memmove semantics) and compares with a naive bit loop; float16 "
         "packing is checked on all 2^32 singles (faithful, monotone, inf/NaN) and all 2^16 halves; the Python "
         "Serializer/Deserializer run in-process against the same reference.",
         "x86-64 little-endian host, gcc 12; bounds offsets 0..23, lengths 0..80, sizes 0..12; big-endian option only "
@@ -111,8 +117,10 @@ CHECKS = {
         "exhaustive enumeration of chunk schedules on the real line buffer vs. line-by-line reference model",
         "Every text up to the length bound over {a,space,TAB,CR,LF} is pushed through the real "
         "_generate_with_line_buffer under every way of cutting it into chunks (plus empty chunks) and every processor "
-        "list; each execution must equal the one-chunk execution and a boring line-by-line reference. The chunk "
-        "schedule is the only nondeterminism of this code and it is enumerated completely within the bound.",
+        "list (also two processors of one class); each execution must equal the one-chunk execution and a boring line-by-line "
+        "reference. Histories [run aborted behind chunk k ; complete run] for every cut and every k, and real DSDLCodeGenerator "
+        "objects (one per processor list, reused for every cut schedule, with refused renderings in between) must give the "
+        "reference output too.",
         "Alphabet of 5 characters stands for all characters (whitespace / CR / LF / other are the only classes the "
         "code distinguishes); text length <= 7; processors fresh per execution.",
         "DESIGN.md section 3, C15",
@@ -126,7 +134,10 @@ CHECKS["C19"] = (
     "templates) is rendered by the bundled engine and by stock Jinja2 3.1.6 and must agree; every placement of the auto-indent "
     "marker (18 constructs x enclosures x leads x trails x 5 indentations) is checked against the splitlines formula and a twin "
     "template with an independent reference filter; assert and use-query tags are checked against Python evaluation over all "
-    "truth assignments.",
+    "truth assignments. Further sub-spaces: arguments of the bundled filters next to nunavut's own (indent x carriers x values), "
+    "markers across template inheritance (parents / children / grandchildren, overrides, super()), markers behind every kind of "
+    "predecessor tag with and without whitespace control, and compilation histories [refused / failing / truncated template ; "
+    "ordinary template] over shared and fresh lexer caches.",
     "Stock Jinja2 3.1.6 is the oracle; two upstream-drift constructs are excluded and re-verified each run with the de-modified "
     "lexer; exception messages and the final line terminator of an auto-indented construct are not compared.",
     "DESIGN.md section 3, C19",
@@ -163,7 +174,9 @@ CHECKS["C08"] = (
     "stem, 3 namespace sets, absolute/relative path spelling) are run through the real nnvg entry point in a sandbox; where generation "
     "succeeds the --list-outputs set is compared with the files the real run creates, the four no-write modes are checked against a full "
     "snapshot (hash, mode, size, mtime, directories) with the outdir absent and populated, and every DSDL, template and support file is "
-    "mutated and regenerated: any file that changes an output byte must be named by --list-inputs. Quick: 84-point core + 1/16 slice.",
+    "mutated and regenerated: any file that changes an output byte must be named by --list-inputs. Two further families: user directory "
+    "layouts (same-named templates at other depths, near-miss names) and user directory locations (10 spellings incl. .., dot-folders, "
+    "symlinked parents x 4 relative placements of --templates / --support-templates). Quick: fixed cores + 1/16 slices.",
     "Three fixed small namespace sets; built-in templates are mutated through a harness wrapper of the loader, never on disk; clock fixed; "
     "one recorded finding (lookup DSDL files not listed) in known_findings.json.",
     "DESIGN.md section 3, C08",
@@ -174,8 +187,9 @@ CHECKS["C12"] = (
     "States are canonical snapshots (path -> sha256, mode) of the output directory; every transition is a real nunavut.cli.main() run in a "
     "forked child without CAP_DAC_OVERRIDE so that uid 0 honours 0o444. The 108-event alphabet (--file-mode, --no-overwrite, "
     "--omit-serialization-support, --generate-support, line post-processors) runs on targets c and py plus 36 support-only events on cpp "
-    "with a plain support resource, from 4 pre-populated initial states; the reachable graph closes at depth 3 (783 states, 64 188 "
-    "transitions in thorough), so every history over the alphabet is covered. Every transition is checked against the clean-run bytes, "
+    "with a plain support resource, from 6 pre-populated initial states (foreign file, read-only and zero-length leftovers at type / "
+    "support paths), in four event families (line post-processors, five ordinary modes, external program, modes 0o000 / 0o200); thorough "
+    "explores every family to closure, so every history over each family's alphabet is covered. Every transition is checked against the clean-run bytes, "
     "the requested mode, untouched bystanders and the --no-overwrite contract.",
     "Clock frozen; in-process CLI (an escaping exception counts as a reported failure); two-type namespace, umask 022; read-only "
     "directories and symlinks out of scope; quick explores depth 2 over a 24-event core + seed slice.",
@@ -185,7 +199,8 @@ CHECKS["C20"] = (
     "exploration",
     "bounded-exhaustive doc-string x type-graph generation judged by a strict HTML parser, base-page comparison and link resolution",
     "Every string of <=3 tokens over a 16-token HTML-hostile alphabet is placed at 7 doc-comment positions, 21 strings at every doc slot "
-    "of 10 type graphs, plus 198 link graphs, 58 name shapes and 20 constant expressions; every case is generated by the real html target. "
+    "of 10 type graphs, plus 198 link graphs, 58 name shapes (also for services), attribute counts 0..257 around every power of two, "
+    "deprecated types in every position, page-naming options (stems x extensions) and 20 constant expressions; every case is generated by the real html target. "
     "Every page is judged for strict well-formedness, for markup identity with a plain-word base page plus exact text delivery, and every "
     "relative href is resolved against the generated tree (file exists and contains the id). Thorough: 31 655 namespaces, 79 646 pages.",
     "PyDSDL 1.25 and CPython's html.parser are trusted; duplicate ids are a statistic (not demanded by the statement); server-absolute and "
@@ -199,8 +214,9 @@ CHECKS["C13"] = (
     "Every sequence of <=3 sources over bounded universes of nested maps (depth <=3, keys a,b, explicit / default / list / map leaves) is "
     "merged with the real deep_update and compared with a reference merge, and every source with its pristine form. Every history of <=4 "
     "real builder calls (+ final create) on one builder and two-builder histories of <=2+<=3 events, each in a fresh interpreter over 3 YAML "
-    "documents x 7 override values x {c, cpp, py}, plus the full CLI product flags x standard x file order: everything a created context "
-    "reports (sections, get_option, get_config_value*, probe template, --list-configuration) is compared with the reference precedence, and "
+    "documents x 7 override values x {c, cpp, py} (incl. two files in one call and a scalar between two maps), plus the CLI product flags x "
+    "standard x file lists (every order, repeated files, path aliases) x explicit endianness values: everything a created context "
+    "reports (sections, get_option, get_config_value*, a non-target Language object, probe template, --list-configuration) is compared with the reference precedence, and "
     "earlier contexts are re-observed after every later event.",
     "Alphabets stand for all configurations; re-create on the same builder is modelled as cumulative (same-builder sharing is a statistic); "
     "built-in defaults are read from properties.yaml by the harness; PyYAML is trusted.",
@@ -237,9 +253,10 @@ CHECKS["C07"] = (
     "permuting-set schedule exploration (deviation-bounded) + ambient-tuple product on the real generator",
     "Every iteration of a hash-ordered nunavut collection is a scheduler-controlled choice point (the name 'set' is bound to a permuting set "
     "in all nunavut modules): all schedules with <=1 deviation (thorough: a restricted second deviation) are run and crossed with the full "
-    "product clock x cwd x path spelling x absolute location, plus 4 hash-seed interpreters through the CLI, over 70 configurations "
-    "(5 namespaces x 7 targets x serialization on/off); output trees are compared byte for byte with the neighbour differing in one dimension.",
-    "5 hand-written namespaces; PyDSDL's own sets only covered by the hash-seed runs; 3 non-interceptable set literals (argued harmless); "
+    "product clock x cwd x path spelling x absolute location, plus 4 hash-seed interpreters through the CLI, over ~115 configurations "
+    "(9 namespaces incl. dependency chains through sibling namespaces x 7 targets x serialization on/off, + the shipped templates handed "
+    "over as a user template directory whose position relative to the output directory varies); output trees are compared byte for byte with the neighbour differing in one dimension.",
+    "hand-written namespaces; differing pickled models are compared structurally (only PyDSDL memo state carries the listed cause tag); PyDSDL's own sets only covered by the hash-seed runs; 3 non-interceptable set literals (argued harmless); "
     "two-deviation level restricted and sets >4 capped (reported as caps, never marked exhaustive); two recorded findings (pickled Python model).",
     "DESIGN.md section 3, C07",
 )
@@ -248,7 +265,9 @@ CHECKS["C10"] = (
     "explicit-state search over generator-invocation histories (fork() as snapshot) against fresh-process references",
     "Histories of <=2 (thorough <=3) real generator invocations in one interpreter, enumerated over every dependency-closed subset x every "
     "permutation of the type list x nested-namespace iteration schedules x {c, cpp, py} x built-in / user templates x 3 post-processor lists "
-    "x optional LanguageContext reuse; every type file of the last event must equal the bytes generated for {t} + deps(t) in a fresh process.",
+    "x optional LanguageContext reuse, + generator objects used twice, configuration changes between runs, documented types in every order, "
+    "and runs REFUSED half-way (template assertion inside the first / a later file) followed by the same generator object or new objects; "
+    "every type file of the last event must equal the bytes generated for {t} + deps(t) in a fresh process.",
     "Depth >=2 uses reduced alphabets (caps reported); only DSDLCodeGenerator is modelled; clock frozen; a fork of an import-only interpreter "
     "stands for a fresh process (self-checked); one recorded finding (pickled Python model content).",
     "DESIGN.md section 3, C10",
